@@ -136,7 +136,7 @@ def run(ctx):
                 files.append(path)
                 stream_packets += raws
             outs = [ref.walk(doc, r) for r in stream_packets]
-            if any(o.status not in ("ok", "unrecognized") for o in outs):
+            if any(o.status not in ("ok", "unrecognized") or harness.has_dontcare(o) for o in outs):
                 ctx.count("skipped.error-expected-packets")
                 continue    # a decoding error would (legitimately) escape create_dataset
             rows = {}
